@@ -1,0 +1,230 @@
+//! Verification hooks (cargo feature `verif-hooks`; off by default).
+//!
+//! This module is the whole contract between the shell and an external deterministic
+//! simulator. A simulator installs a table of function pointers once per process
+//! ([`install`]); every hook below forwards to that table. When no table is installed,
+//! or when the installed simulator reports that it is not active, every hook falls
+//! through to the shell's ordinary behavior.
+
+use std::io;
+use std::path::Path;
+use std::sync::OnceLock;
+
+use crate::openfiles::{OpenFile, Stream};
+
+/// Table of simulator entry points.
+pub struct Hooks {
+    /// Returns whether a simulation is currently running in this process.
+    pub active: fn() -> bool,
+    /// Called by the spawner just before a task is spawned; returns a participant token.
+    pub task_spawn: fn(kind: &'static str) -> u64,
+    /// Called by the spawner right after the spawn with the new task's id.
+    pub task_spawned: fn(tok: u64, id: tokio::task::Id),
+    /// First thing executed on the new task's own thread.
+    pub task_begin: fn(tok: u64),
+    /// Last thing executed on the task's own thread (on return and on unwind).
+    pub task_end: fn(tok: u64),
+    /// Called before a task's `JoinHandle` is awaited.
+    pub before_join: fn(id: tokio::task::Id, is_finished: &dyn Fn() -> bool),
+    /// Called before a task's `JoinHandle` is polled without blocking.
+    pub before_poll: fn(id: tokio::task::Id, is_finished: &dyn Fn() -> bool),
+    /// Creates a simulated pipe; `site` names the creation site.
+    pub pipe: fn(site: &'static str) -> io::Result<(Box<dyn Stream>, Box<dyn Stream>)>,
+    /// Called before a read/write on a non-simulated open file.
+    pub io_point: fn(kind: &'static str, is_write: bool, len: usize) -> Option<io::Error>,
+    /// Called before a file is opened on behalf of the shell.
+    pub open_point: fn(path: &Path) -> Option<io::Error>,
+}
+
+static HOOKS: OnceLock<Hooks> = OnceLock::new();
+
+/// Installs the simulator's entry points. Only the first call has any effect.
+pub fn install(hooks: Hooks) {
+    let _ = HOOKS.set(hooks);
+}
+
+/// Returns the installed entry points when a simulation is active.
+pub(crate) fn hooks() -> Option<&'static Hooks> {
+    HOOKS.get().filter(|h| (h.active)())
+}
+
+/// Read end of a pipe that is either a real OS pipe or a simulated one.
+pub(crate) enum PipeReader {
+    /// A real pipe.
+    Real(std::io::PipeReader),
+    /// A simulated pipe.
+    Sim(Box<dyn Stream>),
+}
+
+/// Write end of a pipe that is either a real OS pipe or a simulated one.
+pub(crate) enum PipeWriter {
+    /// A real pipe.
+    Real(std::io::PipeWriter),
+    /// A simulated pipe.
+    Sim(Box<dyn Stream>),
+}
+
+impl From<PipeReader> for OpenFile {
+    fn from(r: PipeReader) -> Self {
+        match r {
+            PipeReader::Real(r) => r.into(),
+            PipeReader::Sim(s) => Self::Stream(s),
+        }
+    }
+}
+
+impl From<PipeWriter> for OpenFile {
+    fn from(w: PipeWriter) -> Self {
+        match w {
+            PipeWriter::Real(w) => w.into(),
+            PipeWriter::Sim(s) => Self::Stream(s),
+        }
+    }
+}
+
+/// Creates a pipe: simulated when a simulation is active, real otherwise.
+pub(crate) fn pipe(site: &'static str) -> io::Result<(PipeReader, PipeWriter)> {
+    if let Some(h) = hooks() {
+        let (r, w) = (h.pipe)(site)?;
+        Ok((PipeReader::Sim(r), PipeWriter::Sim(w)))
+    } else {
+        let (r, w) = std::io::pipe()?;
+        Ok((PipeReader::Real(r), PipeWriter::Real(w)))
+    }
+}
+
+/// Drains the read end of a command substitution's pipe.
+pub(crate) enum AsyncReader {
+    /// A real pipe, read through the platform's async reader.
+    #[cfg(unix)]
+    Real(crate::sys::async_pipe::AsyncPipeReader),
+    /// A simulated pipe.
+    Sim(Box<dyn Stream>),
+}
+
+impl AsyncReader {
+    /// Wraps the given read end.
+    pub(crate) fn new(reader: PipeReader) -> io::Result<Self> {
+        match reader {
+            #[cfg(unix)]
+            PipeReader::Real(r) => Ok(Self::Real(crate::sys::async_pipe::AsyncPipeReader::new(r)?)),
+            #[cfg(not(unix))]
+            PipeReader::Real(_) => Err(io::Error::other("unsupported")),
+            PipeReader::Sim(s) => Ok(Self::Sim(s)),
+        }
+    }
+
+    /// Reads everything up to end of file as a UTF-8 string.
+    pub(crate) async fn read_to_string(&mut self) -> io::Result<String> {
+        match self {
+            #[cfg(unix)]
+            Self::Real(r) => r.read_to_string().await,
+            Self::Sim(s) => {
+                let mut out = String::new();
+                io::Read::read_to_string(s, &mut out)?;
+                Ok(out)
+            }
+        }
+    }
+}
+
+/// Announces that the given task handle is about to be awaited.
+pub(crate) fn before_join<T>(handle: &tokio::task::JoinHandle<T>) {
+    if let Some(h) = hooks() {
+        (h.before_join)(handle.id(), &|| handle.is_finished());
+    }
+}
+
+/// Announces that the given task handle is about to be polled without blocking.
+pub(crate) fn before_poll<T>(handle: &tokio::task::JoinHandle<T>) {
+    if let Some(h) = hooks() {
+        (h.before_poll)(handle.id(), &|| handle.is_finished());
+    }
+}
+
+/// Scheduling and fault point for I/O on a non-simulated open file.
+pub(crate) fn io_point(file: &OpenFile, is_write: bool, len: usize) -> Option<io::Error> {
+    let h = hooks()?;
+    let kind = match file {
+        OpenFile::Stdin(_) => "stdin",
+        OpenFile::Stdout(_) => "stdout",
+        OpenFile::Stderr(_) => "stderr",
+        OpenFile::File(_) => "file",
+        OpenFile::PipeReader(_) => "pipe_reader",
+        OpenFile::PipeWriter(_) => "pipe_writer",
+        OpenFile::Stream(_) => return None,
+    };
+    (h.io_point)(kind, is_write, len)
+}
+
+/// Scheduling and fault point for opening a file.
+pub(crate) fn open_point(path: &Path) -> io::Result<()> {
+    match hooks().and_then(|h| (h.open_point)(path)) {
+        Some(e) => Err(e),
+        None => Ok(()),
+    }
+}
+
+struct EndGuard(u64, &'static Hooks);
+
+impl Drop for EndGuard {
+    fn drop(&mut self) {
+        (self.1.task_end)(self.0);
+    }
+}
+
+/// Stand-in for the `tokio` crate name inside modules that spawn tasks: identical to
+/// `tokio` except that `spawn` and `task::spawn_blocking` register the new task with an
+/// active simulator and run it on a thread of its own.
+pub(crate) mod tokio_shim {
+    #[allow(unused_imports)]
+    pub use ::tokio::*;
+
+    /// See [`::tokio::spawn`].
+    pub fn spawn<F>(fut: F) -> ::tokio::task::JoinHandle<F::Output>
+    where
+        F: Future + Send + 'static,
+        F::Output: Send + 'static,
+    {
+        match super::hooks() {
+            None => ::tokio::spawn(fut),
+            Some(h) => {
+                let tok = (h.task_spawn)("async");
+                let jh = ::tokio::task::spawn_blocking(move || {
+                    (h.task_begin)(tok);
+                    let _end = super::EndGuard(tok, h);
+                    ::tokio::runtime::Handle::current().block_on(fut)
+                });
+                (h.task_spawned)(tok, jh.id());
+                jh
+            }
+        }
+    }
+
+    /// See [`::tokio::task`].
+    pub mod task {
+        #[allow(unused_imports)]
+        pub use ::tokio::task::*;
+
+        /// See [`::tokio::task::spawn_blocking`].
+        pub fn spawn_blocking<F, R>(f: F) -> ::tokio::task::JoinHandle<R>
+        where
+            F: FnOnce() -> R + Send + 'static,
+            R: Send + 'static,
+        {
+            match super::super::hooks() {
+                None => ::tokio::task::spawn_blocking(f),
+                Some(h) => {
+                    let tok = (h.task_spawn)("blocking");
+                    let jh = ::tokio::task::spawn_blocking(move || {
+                        (h.task_begin)(tok);
+                        let _end = super::super::EndGuard(tok, h);
+                        f()
+                    });
+                    (h.task_spawned)(tok, jh.id());
+                    jh
+                }
+            }
+        }
+    }
+}
